@@ -233,6 +233,14 @@ def _check_many_windows(spec, stats):
     stats.nontrivial = True
 
 
+def _structure(text):
+    """RTLIL with every identifier blanked and the lines sorted: what is left is the structure of the
+    netlist (cells, widths, connections per kind), insensitive to how internal signals are named."""
+    import re
+    lines = [re.sub(r"(\\[^\s]+|\$[0-9]+)", "ID", l.strip()) for l in text.splitlines() if not l.lstrip().startswith("attribute")]
+    return sorted(lines)
+
+
 def _extend(cls, comp):
     """One more add() on a decoder / arbiter / multiplexer map; returns a comparable outcome."""
     from amaranth_soc import csr, wishbone
@@ -289,7 +297,7 @@ def _still_extensible(spec, built, stats, cls):
                     raise
                 raise Violation(f"C19/elab-after-add/{_site(e)}", f"{cls}: elaboration of the {who} after a further add() "
                                 f"failed: {type(e).__name__}: {str(e)[:200]}")
-        if outs[0] != outs[1]:
+        if outs[0][0] != outs[1][0] or (outs[0] != outs[1] if outs[0][0] == "refused" else _structure(outs[0][1]) != _structure(outs[1][1])):
             raise Violation(f"C19/purity/elab-after-add-differs/{cls}", f"after further add() calls the instance that had "
                             f"been elaborated before gives {outs[0][0]} ({outs[0][1][:80] if outs[0][0] == 'refused' else len(outs[0][1])}), "
                             f"a never-elaborated twin in the same state gives {outs[1][0]} "
@@ -298,8 +306,8 @@ def _still_extensible(spec, built, stats, cls):
 
 
 def _two_in_one_design(spec, built, stats, cls, text):
-    """A second instance built from the same parameters: elaborates to the same hardware, and both
-    fit into one design (instances own their signals)."""
+    """A second instance built from the same parameters elaborates too, and both fit into one
+    design (instances own their signals)."""
     from amaranth import Module
     twin = components.build(spec)
     try:
@@ -309,9 +317,10 @@ def _two_in_one_design(spec, built, stats, cls, text):
             raise
         raise Violation(f"C19/elab-second-instance/{_site(e)}", f"{cls}: a second instance built from the same parameters "
                         f"failed to elaborate: {type(e).__name__}: {str(e)[:200]}")
-    if t2 != text:
+    # two instances are compared by netlist structure only (instance-unique internal names would be legitimate)
+    if _structure(t2) != _structure(text):
         raise Violation(f"C19/repeatability/second-instance/{cls}", f"a second instance built from the same parameters "
-                        f"elaborates to different RTLIL (lengths {len(text)} vs {len(t2)})")
+                        f"elaborates to a structurally different netlist (RTLIL lengths {len(text)} vs {len(t2)})")
     m = Module()
     m.submodules.first = built.comp
     m.submodules.second = twin.comp
